@@ -557,6 +557,7 @@ def write_evidence(ctx, recipe, results, violations, known, undecided=None):
           'coverage': cov, 'assumptions': assumptions,
           'wall_s': round(time.time() - ctx.t0, 2),
           'violations': len({(r.group.name, o.key) for r, o in violations})}
-    os.makedirs(os.path.join(VERIF, 'evidence'), exist_ok=True)
-    with open(os.path.join(VERIF, 'evidence', ctx.prop_id + '.json'), 'w') as f:
+    evdir = os.environ.get('VERIF_EVIDENCE_DIR') or os.path.join(VERIF, 'evidence')   # seed/mutation runs write elsewhere
+    os.makedirs(evdir, exist_ok=True)
+    with open(os.path.join(evdir, ctx.prop_id + '.json'), 'w') as f:
         json.dump(ev, f, indent=1)
